@@ -64,7 +64,22 @@ def sparse_case(case):
     if name in M.HAS_HIDDEN:
         kw["M"] = Mc
         kw["n_hidden_dim"] = 3
-    model = M.make(name, _route=route, **kw)
+    if route == "regrouped":
+        # history: the same object was first trained with ANOTHER group structure (and other alpha), then given the declared one by set_params
+        alt = [[1, 2]] if declared != [[1, 2]] else [[0, 3]]
+        model = M.make(name, **dict(kw, groups=alt, alpha=0.3))
+        try:
+            import warnings
+            with warnings.catch_warnings():
+                warnings.simplefilter("ignore")
+                model.fit(X)
+                if mode == "path":
+                    model.path(X, alpha_multiplier=3.0, min_features=1, max_patience=1)
+        except Exception:  # noqa
+            pass
+        model.set_params(groups=declared, alpha=alpha)
+    else:
+        model = M.make(name, _route=route, **kw)
     where = dict(model=name, gemini=gemini, alpha=alpha, M=Mc, groups=str(groups), batch_size=bs, dynamic=dynamic, mode=mode, route=route)
     v = []
     state = {"snap": None, "steps": 0, "shrunk": 0}
@@ -192,7 +207,7 @@ def explorers(tier, seed):
             for gi, groups in enumerate(group_menu):
                 if gi % 3 == 0:
                     for mode in ("fit", "path"):
-                        for route in ("set_params", "used_set_params"):
+                        for route in ("set_params", "used_set_params", "regrouped"):
                             cases.append((name, gemini, alpha, 0.5 if name in M.HAS_HIDDEN else None, groups, None, False, mode, seed, route))
     return [Explorer("sparse_monitor", "props.c06", "sparse_case", cases, chunk=4, floor=50, case_timeout=600,
                      require={"rows_shrunk_not_killed": 500, "ends_with_some_features_dead": 50},
